@@ -97,6 +97,16 @@ class Impl:
                 self.cu.setSerializer(self.cu.serialize.CSSSerializer())
 
 
+class Probe:
+    """stands in for the context in a dry run of the oracle: remembers only whether anything was reported"""
+
+    def __init__(self):
+        self.hit = False
+
+    def violate(self, clause, witness, detail=None, known=None):
+        self.hit = True
+
+
 def diff_prefs(prefs, defaults):
     return {k: v for k, v in sorted(prefs.items()) if v != defaults[k]}
 
@@ -236,9 +246,10 @@ class C06(Check):
     def check_sheet(self, ctx, im, src, records, kind, oracle_share=1.0, rng=None, roundtrip=True):
         """Runs the implementation and the oracles now; returns the pending (line, case) pairs for the model.
 
-        With `roundtrip` the DOM under test is the reparse of the sheet's own filter-free serialization (what is lost
-        or changed by a plain serialise/parse round trip is C03's subject, not C06's); the raw DOM, which has more odd
-        shapes, additionally goes through the model correspondence under a few records."""
+        Two DOMs per source text: the raw parse, and (with `roundtrip`) the reparse of the sheet's own filter-free
+        serialization. What a plain serialise/parse round trip loses or changes is C03's subject, so on the raw DOM
+        the oracle only runs when the raw DOM passes it under the DEFAULT record, and then on a sample of the records;
+        the model correspondence runs on both DOMs under every record."""
         try:
             sh = im.parse(src)
         except TimeLimit:
@@ -248,7 +259,7 @@ class C06(Check):
             return []
         pending = []
         if roundtrip:
-            pending += self.corr_only(ctx, im, sh, src, records[:1] + records[-3:], kind + '-raw')
+            pending += self.one_dom(ctx, im, sh, src, records, kind + '-raw', 0.3 * oracle_share, rng, raw=True)
             rn, _ = im.serialize(sh, self.full(im, self.NEUTRAL))
             if rn[0] != 'OK':
                 ctx.count('neutral-serialization-raises:' + rn[1])
@@ -261,6 +272,9 @@ class C06(Check):
             except Exception as e:
                 ctx.count('reparse-exception:' + type(e).__name__)
                 return pending
+        return pending + self.one_dom(ctx, im, sh, src, records, kind, oracle_share, rng, raw=False)
+
+    def one_dom(self, ctx, im, sh, src, records, kind, oracle_share, rng, raw):
         try:
             toks = X.sheet(sh)
         except X.Unmodelled as e:
@@ -269,36 +283,29 @@ class C06(Check):
         kinds = rule_kinds(sh)
         d0, _ = im.serialize(sh, im.defaults)
         cache = {}
+        oracle_on = True
+        if raw:
+            # dry run under the default record: a DOM that does not survive a plain round trip is not judged here
+            probe = Probe()
+            self.oracle_case(probe, im, sh, src, im.defaults, {}, d0, d0, kinds, cache, deep=True)
+            oracle_on = not probe.hit
+            if not oracle_on:
+                ctx.count('raw-dom-fails-plain-round-trip')
+        pending = []
         for d in records:
             prefs = self.full(im, d)
             res, line = im.serialize(sh, prefs, toks)
             dp = diff_prefs(prefs, im.defaults)
             nontrivial = (not dp) or res != d0
-            ctx.case(key=(src, tuple(sorted((k, repr(v)) for k, v in dp.items()))), nontrivial=nontrivial,
+            ctx.case(key=(raw, src, tuple(sorted((k, repr(v)) for k, v in dp.items()))), nontrivial=nontrivial,
                      sample={'src': src[:300], 'prefs': dp, 'impl': res[1][:300] if res[0] == 'OK' else res[:3]},
                      kind='%s:%s' % (kind, 'default' if not dp else ('single' if len(dp) == 1 else
                                                                     ('pair' if len(dp) == 2 else 'multi'))))
             if line is not None:
-                pending.append((line, {'src': src, 'prefs': dp, 'res': res}))
-            self.oracle_case(ctx, im, sh, src, prefs, dp, res, d0, kinds, cache,
-                             deep=(rng is None or rng.random() < oracle_share))
-        return pending
-
-    def corr_only(self, ctx, im, sh, src, records, kind):
-        try:
-            toks = X.sheet(sh)
-        except X.Unmodelled as e:
-            ctx.count('unmodelled:' + str(e)[:40])
-            return []
-        pending = []
-        for d in records:
-            prefs = self.full(im, d)
-            if prefs['indentSpecificities']:
-                continue
-            res, line = im.serialize(sh, prefs, toks)
-            dp = diff_prefs(prefs, im.defaults)
-            ctx.case(key=('raw', src, tuple(sorted((k, repr(v)) for k, v in dp.items()))), nontrivial=True, kind=kind)
-            pending.append((line, {'src': src, 'prefs': dp, 'res': res, 'raw': True}))
+                pending.append((line, {'src': src, 'prefs': dp, 'res': res, 'raw': raw}))
+            if oracle_on:
+                self.oracle_case(ctx, im, sh, src, prefs, dp, res, d0, kinds, cache,
+                                 deep=(rng is None or rng.random() < oracle_share))
         return pending
 
     def flush(self, ctx, pending):
